@@ -44,6 +44,7 @@ type Spec struct {
 	AssertMS     int      `json:"assert_ms"`
 	MaxSteps     int64    `json:"max_steps"`
 	MaxPaths     int64    `json:"max_paths"`
+	MaxViolations int64   `json:"max_violations"`
 	Unroll       int      `json:"unroll"`
 	PermuteMaps  bool     `json:"permute_maps"`
 	CrossCheck   bool     `json:"cross_check"`
@@ -209,7 +210,7 @@ func main() {
 	}
 	e := &Engine{prog: prog, fset: prog.Fset, models: map[string]*ssa.Function{}, execPrefix: execPrefixes}
 	e.cfg = Config{FeasTimeoutMS: orInt(spec.FeasMS, 2000), AssertTimeoutMS: orInt(spec.AssertMS, 60000), MaxSteps: orInt64(spec.MaxSteps, 30000000),
-		MaxPaths: spec.MaxPaths, Unroll: orInt(spec.Unroll, 64), Workers: *workers, Verbose: *verbose, DumpDir: *dump, PermuteMaps: spec.PermuteMaps, CrossCheck: spec.CrossCheck, Tier: *tier}
+		MaxPaths: spec.MaxPaths, MaxViolations: int64(orInt(int(spec.MaxViolations), 8)), Unroll: orInt(spec.Unroll, 64), Workers: *workers, Verbose: *verbose, DumpDir: *dump, PermuteMaps: spec.PermuteMaps, CrossCheck: spec.CrossCheck, Tier: *tier}
 	if *onePath != "" {
 		for _, x := range strings.Split(*onePath, ",") {
 			var v int
@@ -329,7 +330,7 @@ func (e *Engine) runOne(fn *ssa.Function, pkgPath string) HarnessResult {
 	e.reaches = nil
 	e.aborts = map[string]int{}
 	e.reachSeen = map[string]int{}
-	e.pathsDone, e.pathsInfeas, e.violations, e.stop, e.panicChecks = 0, 0, 0, 0, 0
+	e.pathsDone, e.pathsInfeas, e.violations, e.stop, e.panicChecks, e.untagged = 0, 0, 0, 0, 0, 0
 	q0, s0 := statQueries, statSolverNS
 	e.RunHarness(fn)
 	hr := HarnessResult{Harness: fn.Name(), Pkg: pkgPath, Paths: e.pathsDone, Infeasible: e.pathsInfeas, Aborts: e.aborts,
